@@ -60,7 +60,22 @@ def run(ctx):
         cb = body_of(ctx, k)
         sig = (cb or {}).get('sig') or ''
         return cb is not None and len(cb.get('params', [])) == 1 and re.search(r'ViewRepr<&(\'\w+ )?f32>, ndarray::Dim<\[usize; 2\]>>\) -> ndarray::ArrayBase<ndarray::OwnedRepr<f32>, ndarray::Dim<\[usize; 2\]>>', sig) is not None
-    ac = [k for k in callees if is_acov(k)]
+    # ... searched through private helpers of the ESS function as well (e.g. an extracted "mean autocovariance over chains"); of the
+    # functions with that signature the top-most one (not called by another candidate) is the dispatcher
+    seen_, stack_ = set(callees), list(callees)
+    while stack_:
+        cb_ = body_of(ctx, stack_.pop())
+        if cb_ is None:
+            continue
+        for k2 in local_callees(ctx, cb_):
+            if k2 not in seen_:
+                seen_.add(k2)
+                stack_.append(k2)
+    cands = [k for k in sorted(seen_) if is_acov(k)]
+    below = set()
+    for k in cands:
+        below |= set(local_callees(ctx, body_of(ctx, k)))
+    ac = [k for k in cands if k not in below]
     if len(ac) != 1:
         ctx.unknown('C12.ess', A, 'autocov', why='expected the ESS helper to call exactly one crate-local autocovariance function (2-D view -> 2-D array); found %s among %s' % (ac, callees), sp=be['sp'])
         return
@@ -169,12 +184,19 @@ def autocov(ctx, ackey, bodies):
     ret = ev.ret_term
     ps = [p['pat']['name'] for p in ba['params'] if p.get('pat', {}).get('k') == 'Binding']
     smp = S(ps[0]) if ps else S('sample')
-    ok = ret[0] == 'ite' and ret[1] is T.cmp('le', T.app('nrows', smp), N(100)) and T.is_app(ret[2]) and T.is_app(ret[3]) and ret[2][2] == (smp,) and ret[3][2] == (smp,) and ret[2][1] != ret[3][1]
+    # rows <= 100 -> brute force else FFT, or the same decision written as rows > 100 -> FFT else brute force (integer comparison)
+    le100 = T.cmp('le', T.app('nrows', smp), N(100))
+    br_bf = br_fft = None
+    if ret[0] == 'ite' and ret[1] is le100:
+        br_bf, br_fft = ret[2], ret[3]
+    elif ret[0] == 'ite' and ret[1] is T.cmp('gt', T.app('nrows', smp), N(100)):
+        br_bf, br_fft = ret[3], ret[2]
+    ok = br_bf is not None and T.is_app(br_bf) and T.is_app(br_fft) and br_bf[2] == (smp,) and br_fft[2] == (smp,) and br_bf[1] != br_fft[1]
     ctx.check('C12.switch', A, 'switch', ok, expected='rows <= 100 -> brute force, else FFT; both on the same chain', found=show(ret)[:200], sp=ba['sp'], why='path selection by chain length')
     if not ok:
         return
-    bf(ctx, body_of(ctx, ret[2][1]))
-    fft(ctx, body_of(ctx, ret[3][1]))
+    bf(ctx, body_of(ctx, br_bf[1]))
+    fft(ctx, body_of(ctx, br_fft[1]))
     # lag-0 consistency with W: C11's W divisor must be h (biased), as both paths normalise by 1/h
     wvb = bodies.get('withinvar')
     if wvb is not None:
